@@ -38,7 +38,8 @@ def cases(draw):
            "loss": {"kind": "minkowski", "p": 2, "weights": None, "filters": None}, "model": draw(st.sampled_from(["gauss", "ar1"])),
            "D": draw(st.integers(1, 2)), "N": draw(st.integers(4, 8)), "E": draw(st.integers(1, 2)),
            "seed": draw(st.integers(0, 2**32 - 2)), "n_jobs": 1, "verbose": False}
-    return {"cfg": cfg, "k": draw(st.integers(0, 3)), "previous": draw(st.sampled_from([True, True, False]))}
+    return {"cfg": cfg, "k": draw(st.integers(0, 3)), "previous": draw(st.sampled_from([True, True, False])),
+            "big": draw(st.integers(0, 5)) == 0}
 
 
 def die_at(j, fn, code_obj):
@@ -265,8 +266,18 @@ def check_sqlite(ctx: Ctx, case):
                 sq.save_calibrator_state(base, *state_tuple(cal))
                 tup_o = [calib.canon(x) for x in state_tuple(cal)]
             cal.calibrate(1)
-            tup_n = [calib.canon(x) for x in state_tuple(cal)]
             args = state_tuple(cal)
+            if case.get("big"):
+                # a series block of ~3 MB (poorly compressible): larger than SQLite's page cache, so pages of the new row reach
+                # the database file before the commit
+                big = np.sin(np.arange(400000, dtype=float) * 0.37).reshape(4, 1, 100000, 1) * 1e3
+                args = args[:17] + (big,) + args[18:]
+                if previous:
+                    o_args = list(sq.load_calibrator_state(base))
+                    o_args[17] = big[:2].copy() * 0.5
+                    sq.save_calibrator_state(base, *o_args)
+                    tup_o = [calib.canon(x) for x in sq.load_calibrator_state(base)]
+            tup_n = [calib.canon(x) for x in args]
             work = os.path.join(root, "W")
             code = sq.save_calibrator_state.__code__
             for mode in ("exception", "death"):
@@ -284,7 +295,7 @@ def check_sqlite(ctx: Ctx, case):
                         done = raise_at(j, lambda: sq.save_calibrator_state(work, *args), code) == "done"
                     one = dict(case, fault={"kind": mode, "line_event": j})
                     v, info = verdict_sqlite(work, tup_o, tup_n) if os.path.isdir(work) else ("raises", "no folder")
-                    ctx.count(sub, one, j > 0 and not done, [f"{mode}->{v}"])
+                    ctx.count(sub, one, j > 0 and not done, [f"{mode}->{v}"] + (["big-row"] if case.get("big") else []))
                     if v == "hybrid":
                         ctx.fail("C06/sqlite-hybrid", f"{mode} at line event {j}: {info}", sub, one)
                         return
